@@ -27,6 +27,12 @@ func (o *c13oracle) enum(at string, a, b *DEnum) {
 	}
 	for i, v := range a.Vals {
 		if b.Vals[i] != v {
+			if i == 0 && len(a.Vals) == 1 && b.Vals[0].Num == 0 && strings.HasSuffix(b.Vals[0].Name, "UNSPECIFIED") {
+				// the enum had no options: the appended option is its first, and a first option
+				// ending in UNSPECIFIED is taken as the zero value
+				o.fail("C13 option ending in UNSPECIFIED appended to an enum without options replaces the implicit zero value", "enum values (name, number) unchanged", fmt.Sprintf("%s: %v", at, b.Vals[0]), fmt.Sprint(v))
+				continue
+			}
 			o.fail("C13 enum value (name, number) changed by an append edit", "enum values (name, number) unchanged", fmt.Sprintf("%s: %v", at, b.Vals[i]), fmt.Sprint(v))
 		}
 	}
@@ -151,13 +157,13 @@ func (o *c13oracle) files(before, after []*DFile) []violation {
 func runC13(cfg *vh.Config) error {
 	log.SetOutput(io.Discard)
 	res := vh.NewResult("C13", cfg.Seed)
-	res.Rule = "C02's generated bundles x 1-4 random append edits (field at the end of an object / oneof / request / response / topic message at any nesting depth; option at the end of an enum; declaration - object, oneof, enum, service, topic - at the end of a file); both versions compiled by the real compiler; non-trivial = distinct (bundle, edit list) where the original compiles"
+	res.Rule = "C02's generated bundles x 1-4 random append edits (field at the end of an object / oneof / request / response / topic message or of an inline or nested type inside one, at any depth; option at the end of a declared, nested or inline enum; nested declaration at the end of a declared object / oneof; declaration - object, oneof, enum, service, topic - at the end of a file), each also handed to Coq as a term of J5sEdit.edit whose application to the original must compile to what the real compiler made of the edited text; both versions compiled by the real compiler; non-trivial = distinct (bundle, edit list) where the original compiles"
 	cf := &vh.CasesFile{
-		Header: "From Coq Require Import String List NArith.\nFrom J5V.model Require Import J5sAst Desc J5sCorr.",
+		Header: "From Coq Require Import String List NArith.\nFrom J5V.model Require Import J5sAst Desc J5sEdit J5sCorr.",
 		Type:   "c13case",
 		Check:  "c13_check",
 	}
-	n := cfg.Scale(160, 1400)
+	n := cfg.Scale(140, 1400)
 	distinct := vh.Distinct{}
 	const perShard = 20
 	pairs := j5sgen.EditCorpus()
@@ -212,8 +218,16 @@ func runC13(cfg *vh.Config) error {
 				res.Fail(vh.Failure{Case: i, Stream: "edit", Sig: v.Sig, Clause: v.Clause, Input: in, Got: v.Got, Want: v.Want})
 			}
 		}
-		cf.Terms = append(cf.Terms, fmt.Sprintf("CEdit\n   %s\n   %s\n   %s %s %s\n   %s\n   %s", b0.Coq(), b1.Coq(), j5sgen.S(pkg),
-			vh.BoolTerm(g0.ok), vh.BoolTerm(g1.ok), filesCoq(g0.files), filesCoq(g1.files)))
+		var es []string
+		for _, e := range edits {
+			es = append(es, e.Coq)
+		}
+		okall0, okall1 := acceptsAll(b0, t0, pkg, g0.ok), acceptsAll(b1, t1, pkg, g1.ok)
+		// embeds: the old descriptors are expected to embed into the new ones - always, except
+		// for the hand-written pair of the known finding
+		embeds := !(i < len(pairs) && pairs[i].KnownNoEmbed)
+		cf.Terms = append(cf.Terms, fmt.Sprintf("CEdit\n   %s\n   [%s]\n   %s\n   %s %s %s %s %s %s\n   %s\n   %s", b0.Coq(), strings.Join(es, ";\n    "), b1.Coq(), j5sgen.S(pkg),
+			vh.BoolTerm(g0.ok), vh.BoolTerm(g1.ok), vh.BoolTerm(okall0), vh.BoolTerm(okall1), vh.BoolTerm(embeds), filesCoq(g0.files), filesCoq(g1.files)))
 		res.Cases = append(res.Cases, vh.CaseRec{Case: i, Stream: "edit", Input: in, Impl: map[string]any{"ok_before": g0.ok, "ok_after": g1.ok, "err_after": g1.err}})
 		if len(t0) == 1 && len(res.Samples) < 2 {
 			res.Sample(in, 2)
